@@ -59,7 +59,7 @@ fn new_serial() -> i64 {
 
 /// Drives a future to completion, running queued blocking closures in
 /// between. `None` if it can make no progress.
-fn drive<T: 'static>(fut: impl Future<Output = T> + 'static) -> Option<T> {
+pub(crate) fn drive<T: 'static>(fut: impl Future<Output = T> + 'static) -> Option<T> {
     let mut t = Task::new(fut);
     for _ in 0..1000 {
         if let Some(v) = t.poll() {
@@ -154,6 +154,9 @@ impl r2d2::ManageConnection for RM {
     }
     fn is_valid(&self, conn: &mut RConn) -> Result<(), RErr> {
         crate::c15c::note_check(conn.serial);
+        // a validity check does I/O: other threads run meanwhile (a scheduling
+        // point only where the closure is an actor, i.e. at thread level)
+        dpmc::sched::pause("is_valid");
         if conn.invalid {
             Err(RErr)
         } else {
@@ -324,7 +327,7 @@ fn serial_of<B: Backend>(o: &Object<B::M>) -> Option<i64> {
 
 /// Extends a future's lifetime to 'static; sound here because every caller
 /// drives or drops the future before the borrowed object goes away.
-fn unsafe_static<'a, T>(f: impl Future<Output = T> + 'a) -> std::pin::Pin<Box<dyn Future<Output = T> + 'static>> {
+pub(crate) fn unsafe_static<'a, T>(f: impl Future<Output = T> + 'a) -> std::pin::Pin<Box<dyn Future<Output = T> + 'static>> {
     let b: std::pin::Pin<Box<dyn Future<Output = T> + 'a>> = Box::pin(f);
     unsafe { std::mem::transmute(b) }
 }
